@@ -564,7 +564,8 @@ fn fileloads(out: &mut Out, r: &mut Rng, count: u64) {
         let flen = if m_file { FRAME_128 } else { FRAME_48 };
         let cycles = if r.chance(1, 2) { 0 } else { r.below(flen as u64 - 2000) as u32 };
         let fset = r.chance(1, 3);
-        let mouse = match r.below(3) { 0 => None, 1 => Some(2u8), _ => Some(0u8) };
+        // (the SZX mouse chunk: absent, Kempston = 2, none = 0, AMX = 1 - a machine without a Kempston mouse)
+        let mouse = match r.below(4) { 0 => None, 1 => Some(2u8), 2 => Some(0u8), _ => Some(1u8) };
         let encs: Vec<(&str, Vec<u8>)> = vec![
             ("sna", if m_file { sna128(&d) } else { sna48(&d) }),
             ("szx", szx(&d, &SzxOpts { halted, eilast, ay, mouse, cycles, fset, ..Default::default() })),
@@ -617,11 +618,13 @@ fn fileloads(out: &mut Out, r: &mut Rng, count: u64) {
                 let before = machine_state(&mut rx);
                 let b2 = bytes.clone();
                 let is_sna = *enc == "sna";
+                // the host's asset may hand the file out whole or in pieces (short reads)
+                let chunk = [0usize, 0, 16384, 4096, 1000, 7][r.below(6) as usize];
                 let res = guarded(|| {
                     if is_sna {
-                        rx.load_snapshot(Snapshot::Sna(VAsset::new(b2)))
+                        rx.load_snapshot(Snapshot::Sna(VAsset::new(b2).chunked(chunk)))
                     } else {
-                        rx.load_snapshot(Snapshot::Szx(VAsset::new(b2)))
+                        rx.load_snapshot(Snapshot::Szx(VAsset::new(b2).chunked(chunk)))
                     }
                 });
                 let (outcome, detail) = match &res {
